@@ -426,6 +426,9 @@ type stProvider struct {
 	cancel   context.CancelFunc
 	fired    bool
 	log      []string
+	// failOnce: the first state-IDs lookup for these events fails (a fetch
+	// that did not get through), later ones answer
+	failOnce map[string]bool
 }
 
 func (s *stProvider) enter(what string, ev gmsl.PDU) { s.enterID(what, ev.EventID()) }
@@ -450,6 +453,12 @@ func (s *stProvider) StateIDsBeforeEvent(ctx context.Context, ev gmsl.PDU) ([]st
 	if a.idsErr {
 		s.r.Fault("provider_error")
 		return nil, fmt.Errorf("state provider: database error")
+	}
+	if s.failOnce[ev.EventID()] {
+		delete(s.failOnce, ev.EventID())
+		s.r.Fault("provider_error_once")
+		s.r.Logf("  state provider fails once for %s", shortID(ev.EventID()))
+		return nil, fmt.Errorf("state provider: request did not get through")
 	}
 	return append([]string{}, a.ids...), nil
 }
